@@ -2,6 +2,7 @@ package main
 
 import (
 	"bytes"
+	"errors"
 	"fmt"
 	"strconv"
 	"strings"
@@ -696,6 +697,100 @@ func c06concurrent(sizes [][]int, reader bool, bound int) *explore.Scenario {
 	return sc
 }
 
+// c06fullRing: a size-limited ring that is (nearly) full, so that a write re-uses the very bytes a
+// concurrent read has just released.  The scheduler also yields right after every unlock
+// (Cfg.YieldOnRelease): what a call does after giving up the lock is interleaved with the other thread.
+// Writes that find the ring full are refused (ErrFull) and are then not expected back.
+func c06fullRing(limit int, prefill, wr []int, bound int) *explore.Scenario {
+	name := fmt.Sprintf("buffer limit=%d prefilled %v, reader vs writer %v, yield after unlock", limit, prefill, wr)
+	sc := &explore.Scenario{Name: name, Bound: bound}
+	sc.Cfg.Horizon = time.Second
+	sc.Cfg.YieldOnRelease = true
+	mk := func(k, n int) []byte {
+		p := make([]byte, n)
+		for i := range p {
+			p[i] = byte(k*53 + i*7 + 1)
+		}
+		p[0] = byte(k)
+		return p
+	}
+	sc.Make = func() (func(), func(*zzvsched.Exec) (string, *explore.Violation)) {
+		var got [][]byte
+		var accepted []int // packet numbers accepted, in order (single writer after the prefill)
+		var errs []string
+		body := func() {
+			b := packetio.NewBuffer()
+			b.SetLimitSize(limit)
+			for k, n := range prefill {
+				if _, err := b.Write(mk(k, n)); err != nil {
+					errs = append(errs, "prefill: "+err.Error())
+					return
+				}
+				accepted = append(accepted, k)
+			}
+			zzvsched.GoNamed("writer", func() {
+				for i, n := range wr {
+					k := len(prefill) + i
+					_, err := b.Write(mk(k, n))
+					switch {
+					case err == nil:
+						accepted = append(accepted, k)
+					case errors.Is(err, packetio.ErrFull):
+					default:
+						errs = append(errs, err.Error())
+					}
+				}
+			})
+			zzvsched.GoNamed("reader", func() {
+				for i := 0; i < len(prefill); i++ {
+					buf := make([]byte, 64)
+					n, err := b.Read(buf)
+					if err != nil {
+						errs = append(errs, "read: "+err.Error())
+						return
+					}
+					got = append(got, buf[:n])
+				}
+			})
+			zzvsched.WaitIdle()
+			for b.Count() > 0 {
+				buf := make([]byte, 64)
+				n, err := b.Read(buf)
+				if err != nil {
+					errs = append(errs, "drain: "+err.Error())
+					return
+				}
+				got = append(got, buf[:n])
+			}
+		}
+		check := func(ex *zzvsched.Exec) (string, *explore.Violation) {
+			out := fmt.Sprintf("accepted=%v", accepted)
+			if len(ex.Panics) > 0 {
+				return out, &explore.Violation{Sig: "C06 panic", Msg: name + ": panic: " + ex.Panics[0].Value + "\n" + ex.Panics[0].Stack}
+			}
+			if len(errs) > 0 {
+				return out, &explore.Violation{Sig: "C06 concurrent-error", Msg: name + ": " + strings.Join(errs, "; ")}
+			}
+			if ex.HorizonHit {
+				return out + " HORIZON", nil
+			}
+			if len(got) != len(accepted) {
+				return out, &explore.Violation{Sig: "C06 concurrent-lost", Msg: fmt.Sprintf("%s: packets %v were accepted but %d were read; parked: %v", name, accepted, len(got), ex.Parked)}
+			}
+			all := append(append([]int{}, prefill...), wr...)
+			for i, g := range got {
+				k := accepted[i]
+				if want := mk(k, all[k]); !bytes.Equal(g, want) {
+					return out, &explore.Violation{Sig: "C06 concurrent-corrupt", Msg: fmt.Sprintf("%s: read #%d should be packet %d (%d bytes) but returned %d bytes, first difference at %d", name, i+1, k, len(want), len(g), firstDiff(g, want))}
+				}
+			}
+			return out, nil
+		}
+		return body, check
+	}
+	return sc
+}
+
 func init() {
 	c := registry["C06"]
 	c.Scenarios = func(tier string) []*explore.Scenario {
@@ -707,7 +802,9 @@ func init() {
 			c06concurrent([][]int{{1500, 900}, {1200, 700}}, true, b),
 			c06concurrent([][]int{{1500, 900}, {1200, 700}}, false, b),
 			c06concurrent([][]int{{2, 3000}, {2040, 5}}, true, b),
+			c06fullRing(40, []int{16, 16}, []int{16, 10}, b),
+			c06fullRing(40, []int{10, 10, 10}, []int{20, 3}, b),
 		}
 	}
-	c.Rule += "; concurrently: 2 writers x 2 packets whose sizes force the ring to grow, with and without a concurrent reader, every interleaving within the preemption bound: the read sequence must be a merge of the writers' sequences, byte-identical"
+	c.Rule += "; concurrently: 2 writers x 2 packets whose sizes force the ring to grow, with and without a concurrent reader, every interleaving within the preemption bound: the read sequence must be a merge of the writers' sequences, byte-identical; a full size-limited ring (41 bytes) with a reader and a writer whose packets re-use the bytes just released, with a scheduling point after every unlock"
 }
